@@ -174,6 +174,11 @@ type HLog struct {
 	Returned    bool
 	RetCode     codes.Code
 	RetMsg      string
+	Calls       []callRec // every Recv/Send with the driver steps at which it started and returned
+	Obs         []ctxObs  // ctx.Err() != nil observed each time the script was resumed
+	CtxDoneAt   time.Duration
+	CtxDoneErr  error
+	CtxWaited   bool
 	BodyRead    []byte // bytes read through AsHTTPBodyReader
 	BodyReadErr error
 	HelperErr   error
@@ -187,7 +192,29 @@ type HLog struct {
 	mInRecv   bool
 	mInSend   bool
 	mCtxDoneSeen bool
+	mWaiting     bool
 }
+
+type callRec struct {
+	Kind       byte // 'R' or 'S'
+	Start, End int  // driver step numbers
+	Err        error
+	GotMsg     bool
+}
+
+type ctxObs struct {
+	Step int
+	Done bool
+}
+
+//go:norace
+func (l *HLog) setWaiting() { l.mWaiting = true }
+
+// Enabled(0): the handler is (or was) blocked on ctx.Done(). Used as the gate
+// of planned clock jumps.
+//
+//go:norace
+func (l *HLog) Enabled(int) bool { return l.mWaiting }
 
 //go:norace
 func (l *HLog) setSent(n int) { l.mSent = n }
@@ -328,12 +355,15 @@ func (w *World) unary(ctx context.Context, full string, md protoreflect.MethodDe
 			failed = true
 			break
 		}
+		l.Obs = append(l.Obs, ctxObs{w.sim.StepNo(), ctx.Err() != nil})
 		switch st.Op {
 		case "sleep":
 			w.sim.Count(cSlowHandler)
 			time.Sleep(time.Duration(st.N) * time.Millisecond)
 		case "waitctx":
+			l.setWaiting()
 			<-ctx.Done()
+			l.CtxWaited, l.CtxDoneAt, l.CtxDoneErr = true, w.sim.Now(), ctx.Err()
 			l.CtxObserved = append(l.CtxObserved, "done:"+ctx.Err().Error())
 		case "header":
 			grpc.SetHeader(ctx, metadata.Pairs("x-sim-hdr", strconv.Itoa(rs.spec.ID)))
@@ -376,7 +406,9 @@ func (w *World) stream(full string, md protoreflect.MethodDescriptor, stream grp
 		}
 		m := newMsgByDesc(md.Input())
 		l.setIn(true, false)
+		start := w.sim.StepNo()
 		err := stream.RecvMsg(m)
+		l.Calls = append(l.Calls, callRec{Kind: 'R', Start: start, End: w.sim.StepNo(), Err: err, GotMsg: err == nil})
 		l.setIn(false, false)
 		l.RecvCalls++
 		switch {
@@ -395,7 +427,9 @@ func (w *World) stream(full string, md protoreflect.MethodDescriptor, stream grp
 		}
 		m := rs.method.mkResp(payloadFor(rs.spec.ID, i, 'S', spec.Resps[i]))
 		l.setIn(false, true)
+		start := w.sim.StepNo()
 		err := stream.SendMsg(m)
+		l.Calls = append(l.Calls, callRec{Kind: 'S', Start: start, End: w.sim.StepNo(), Err: err})
 		l.setIn(false, false)
 		if err != nil {
 			l.SendErr, l.SendErrAt, sendFailed, failed = err, i, true, true
@@ -412,6 +446,7 @@ func (w *World) stream(full string, md protoreflect.MethodDescriptor, stream grp
 			torn, failed = true, true
 			return false
 		}
+		l.Obs = append(l.Obs, ctxObs{w.sim.StepNo(), ctx.Err() != nil})
 		return true
 	}
 	next := 0 // next response index for "send"/"sendall"
@@ -470,7 +505,9 @@ func (w *World) stream(full string, md protoreflect.MethodDescriptor, stream grp
 			}
 		case "waitctx":
 			if yield("h.waitctx") {
+				l.setWaiting()
 				<-ctx.Done()
+				l.CtxWaited, l.CtxDoneAt, l.CtxDoneErr = true, w.sim.Now(), ctx.Err()
 				l.CtxObserved = append(l.CtxObserved, "done:"+ctx.Err().Error())
 			}
 		case "bodyreader":
